@@ -19,7 +19,6 @@ for cls,what,how in [
  ("panic: asset's current supply #coin is over the supply limit #","an asset whose limit was lowered below its current supply by a parameter update makes the exported genesis fail import","MsgUpdateParams lowers SupplyLimit.Limit below the recorded current supply"),
  ("panic: asset's incoming supply #coin is over the supply limit #","an asset whose limit was lowered below the amount of its open incoming transfers by a parameter update makes the exported genesis fail import","MsgUpdateParams lowers SupplyLimit.Limit below the recorded incoming supply"),
  ("panic: asset's incoming supply + current supply #coin is over the supply limit #","an asset whose limit was lowered below current + incoming supply by a parameter update makes the exported genesis fail import","MsgUpdateParams lowers SupplyLimit.Limit below current + incoming supply"),
- ("panic: asset's outgoing supply #coin is over the supply limit #","an asset whose limit was lowered below the amount of its open outgoing transfers by a parameter update makes the exported genesis fail import","MsgUpdateParams lowers SupplyLimit.Limit below the recorded outgoing supply"),
 ]:
     for mode in ["as-is-full:htlc","as-is-isolated:htlc","zero-height:htlc"]:
         add("C12:import-rejected:%s:%s"%(mode,cls),"htlc",htlc_site,what+" (%s)"%mode.split(':')[0],{"how":how})
